@@ -695,6 +695,28 @@ theorem C06_convU_spec (S D : Ch) (hS : S.inScopeU = true) (hD : D.inScopeU = tr
 
 example : path (.packed 5) .u8 ≠ .downNondiv ∧ (Ch.packed 5).inScopeU = true ∧ convU (.packed 5) .u8 31 = 255 ∧ convU (.packed 5) .u8 17 = 139 := by decide
 
+/-- round trip clause for the function the driver runs: converting to a channel with more levels whose maximum is a
+    multiple of the source maximum, and back, returns the source value (every in-scope unsigned pair on the divisible
+    paths, e.g. uint8_t -> uint16_t -> uint8_t, 4-bit -> uint8_t -> 4-bit, uint16_t -> uint32_t -> uint16_t) -/
+theorem C06_convU_roundtrip_div (S D : Ch) (hS : S.inScopeU = true) (hD : D.inScopeU = true) (hp : path S D = .upDiv)
+    (s : Int) (hs : 0 ≤ s) (hs' : s ≤ S.umax) : convU D S (convU S D s) = s := by
+  obtain ⟨sm1, _, _⟩ := scope_facts S hS
+  have cond : S ≠ D ∧ S.umax < D.umax ∧ D.umax % S.umax = 0 := by
+    unfold path at hp; split_ifs at hp with a b c <;> simp_all
+  have hback : path D S = .downDiv := by
+    unfold path
+    have h1 : ¬ (D = S) := fun h => cond.1 h.symm
+    have h2 : ¬ (D.umax < S.umax) := by omega
+    simp only [h1, h2, cond.2.2, if_false, if_true]
+  have e1 := (C06_convU_closed S D hS hD s hs hs').2.1 hp
+  have rng := (C06_up_div_laws S.umax D.umax sm1 (by omega) cond.2.2).2.2.2.1 s hs hs'
+  rw [e1]
+  have e2 := (C06_convU_closed D S hD hS (s * (D.umax / S.umax)) rng.1 rng.2).2.2.2 hback
+  rw [e2]
+  exact C06_roundtrip_div s S.umax D.umax sm1 (by omega) cond.2.2
+
+example : path .u8 .u16 = .upDiv ∧ convU .u16 .u8 (convU .u8 .u16 200) = 200 := by decide
+
 private theorem unsigned_facts (c : Ch) (h : c.unsignedOf.inScopeU = true) :
     c.isFloat = false ∧ c.unsignedOf.umax = c.maxV - c.minV := by
   cases c <;> simp [Ch.unsignedOf, Ch.inScopeU] at h <;> simp [Ch.unsignedOf, Ch.isFloat, Ch.umax, Ch.maxV, Ch.minV]
